@@ -4,6 +4,7 @@ from harness import common
 from harness.common import spec
 
 META = {
+    'tier_note': 'quick and thorough use the same (thorough) bounds for this property',
     'level': 'model_checking',
     'claim': 'For each of the 64 method classes and Basic.Properties, instances with symbolic attribute '
              'values are inspected through every mapping entry point (iteration, dict(), len, item access, '
@@ -179,6 +180,8 @@ def mapping_ok_props(f, cls, names, types, values, ts_index=None):
 
 
 def partitions(tier, seed):
+    # the thorough bounds of this property exhaust in about a minute: the quick tier uses them too
+    tier = 'thorough'
     q = tier == 'quick'
     parts = []
     for m in spec.METHODS:
